@@ -572,8 +572,7 @@ func (fn LastValue) CheckArgsLen(expr parser.AnalyticFunction) error {
 }
 
 func (fn LastValue) Execute(ctx context.Context, scope *ReferenceScope, partition Partition, expr parser.AnalyticFunction) (map[int]value.Primary, error) {
-	partition.Reverse()
-	return setNthValue(ctx, scope, partition, expr, 1)
+	return setNthValue(ctx, scope, partition, expr, -1)
 }
 
 type NthValue struct{}
@@ -608,11 +607,20 @@ func setNthValue(ctx context.Context, scope *ReferenceScope, partition Partition
 	valueCache := make(map[int]value.Primary, len(partition))
 
 	anScope := scope.CreateScopeForAnalytics()
+	// a negative n counts from the end of the frame (LAST_VALUE)
+	fromLast := n < 0
+	if fromLast {
+		n = -n
+	}
 	for _, frame := range frameSet {
 		var val value.Primary = value.NewNull()
 		count := 0
 
-		for i := frame.Low; i <= frame.High; i++ {
+		for k := 0; k <= frame.High-frame.Low; k++ {
+			i := frame.Low + k
+			if fromLast {
+				i = frame.High - k
+			}
 			if i < 0 || len(partition) <= i {
 				continue
 			}
